@@ -69,10 +69,12 @@ PARTIAL = (
     "stagnation test on the rejection path only uses up ANY cap on a stalled unconstrained state (newton_late_stall_test_spins_refuted). NOT "
     "proved and FALSE for the code: termination of the outer loop with the default MaxIterations = MaxInt - the stagnation test compares "
     "consecutive iterates only; period-2 cycles between neighbouring floats (F-C20-NEWTON-CYCLE; refuted in Coq for every carrier and oracle: "
-    "newton_period2_cycle_spins_refuted, with the binary64 witness x*x - 5e10 newton_cycle_witness_refuted) and the line-search branch of newton_min, "
-    "which has no stagnation test at all (F-C20-NEWTON-MIN-LS-STALL), never return; both are matched by the STATE the run spins in "
-    "(period-2 / fixed point, classified by the counting hook), so a fixed-point spin of newton_root / the plain newton_min branch is a "
-    "VIOLATION. Tie: unconstrained runs with default options on x^2 - a (a ~ 1e10..1e13, 1-D and 2-D, RunRoot / RunCrit / RunMin / the plain "
+    "newton_period2_cycle_spins_refuted, with the binary64 witness x*x - 5e10 newton_cycle_witness_refuted) never return; the finding is "
+    "matched by the STATE the run spins in (period-2, classified by the counting hook), so a fixed-point spin of ANY newton entry point is a "
+    "VIOLATION. The line-search branch of newton_min (the one RunMin reaches) has had the same stagnation test since the repair of the former "
+    "finding F-C20-NEWTON-MIN-LS-STALL (ModelNewton.nstep_ls, line search = oracle; newton_ls_stall_is_loud, newton_ls_iterates_move; the "
+    "code before the repair is refuted: newton_ls_no_stall_test_spins_refuted); its witness corpus/C20/newton_min_ls_stall.json is a "
+    "regression case that must return `line search failed`. Tie: unconstrained runs with default options on x^2 - a (a ~ 1e10..1e13, 1-D and 2-D, RunRoot / RunCrit / RunMin / the plain "
     "newton_min branch through an add-only hook) under a counting hook (40000 evaluations, no wall clock); iterates and InSitu.T1 are "
     "replayed bit-exactly against nstep_loop (CorrNewton.NS); the direction (matrixInverse, MdotV) is logged data, not modelled; the "
     "constrained step loop is tied by the older regex + constraint-callback cases only. gaussJordan.Run: only the two dimension guards of "
@@ -102,7 +104,8 @@ LOOPS = [
     ("newton outer loop on a stalled / cycling state (unconstrained, default MaxIterations)", "capped by MaxInt only",
      "stall: proved loud (PropsNewton.newton_stall_is_loud, every oracle); late stagnation test refuted (newton_late_stall_test_spins_refuted); "
      "period-2 cycle between neighbouring floats: NOT caught by the code (F-C20-NEWTON-CYCLE, refuted: newton_period2_cycle_spins_refuted, newton_cycle_witness_refuted); RunMin's line-search "
-     "branch has no stagnation test (F-C20-NEWTON-MIN-LS-STALL); monitored by a counting hook, hang state classified"),
+     "branch: stall proved loud as well (PropsNewton.newton_ls_stall_is_loud; the branch without the test is refuted: newton_ls_no_stall_test_spins_refuted; "
+     "was F-C20-NEWTON-MIN-LS-STALL, fixed); monitored by a counting hook, hang state classified"),
     ("saga.saga* epoch loop", "capped: MaxIterations (default MaxInt: unbounded by default)", "proved: capped_bound (skeleton only; not exercised by the harness)"),
     ("blahut.blahut `for k < steps`", "capped: steps (mandatory argument)", "proved: capped_bound"),
     ("special.SumSeries / SumLogSeries / EvalContinuedFraction", "capped: max_terms", "proved: capped_bound"),
@@ -148,6 +151,8 @@ DEFAULT_CAPS = [
      "t1.VmulS(t1, c)", "newton_root back-tracking shrinks t1, the vector the trial point is built from (ModelRetry.n_reject)"),
     ("algorithm/newton/newton.go", r"\} else \{\s*for \{\s*x2\.VsubV\(x1, t1\)\s*if Vequals\(x1, x2\) \{\s*return x1, fmt\.Errorf\(\"line search failed\"\)\s*\}\s*// check constraints\s*if constraints\.Value == nil \|\| constraints\.Value\(x2\) \{\s*break\s*\}\s*// decrease step size\s*(t1\.VmulS\(t1, c\))",
      "t1.VmulS(t1, c)", "newton_min back-tracking shrinks t1 (ModelRetry.n_reject)"),
+    ("algorithm/newton/newton.go", r"t1\.VmulS\(t1, alpha\)\s*x2\.VsubV\(x1, t1\)\s*if (Vequals\(x1, x2\)) \{\s*return x1, fmt\.Errorf\(\"line search failed\"\)\s*\}\s*\}\s*\} else \{",
+     "Vequals(x1, x2)", "newton_min line-search branch: stagnation test right after the step x2 = x1 - alpha t1 (ModelNewton.nstep_ls; was F-C20-NEWTON-MIN-LS-STALL)"),
     ("algorithm/newton/newton.go", r"c\s*:=\s*ConstFloat64\((0\.9)\)", "0.9", "newton back-tracking factor c (0 <= c < 1: newton_backtracking_exits)"),
     ("algorithm/lineSearch/lineSearch.go", r"for !constraints\(alpha_j\) \{\s*(alpha_j \*= 0\.5)\s*\}", "alpha_j *= 0.5",
      "lineSearch constraint loop halves alpha_j (ModelRetry.ls_inner with factor 1/2)"),
@@ -367,6 +372,19 @@ def term_stage(ctx, binary, fs):
     if srun and n_lsf < 4:
         ctx.violation({"obligation": "newton stall stream reaches the stagnation exit", "runs": len(srun), "line_search_failed": n_lsf}, False,
                       "only %d of %d unconstrained stall runs ended through the stagnation exit `line search failed` (the stream is vacuous)" % (n_lsf, len(srun)))
+    # regression case of the former finding F-C20-NEWTON-MIN-LS-STALL (fixed in /repo): the witness is part of the stall stream and
+    # must RETURN through the stagnation exit of the line-search branch; a hang of it is an unexplained deadline (VIOLATION below)
+    wit = json.load(open(os.path.join(vlib.ROOT, "corpus/C20/newton_min_ls_stall.json")))
+    wc, we = wit["tcase"], wit["expect"]
+    wr = [r for r in res if all(r["case"].get(k) == wc[k] for k in ("routine", "family", "n", "p", "x0"))]
+    wok = bool(wr) and all(r["outcome"] == we["outcome"] and we["msg_contains"] in r.get("msg", "") for r in wr)
+    ctx.oblige(1, 1 if wok else 0)
+    if not wok and not any(r["outcome"] == "deadline" for r in wr):
+        ctx.violation({"tcase": wc, "obligation": "regression case corpus/C20/newton_min_ls_stall.json returns `line search failed`",
+                       "outcome": [[r["outcome"], r.get("msg", "")[:120]] for r in wr]}, bool(wr),
+                      "newton.RunMin on x^3/3 - 2e10 x from 1 (former finding F-C20-NEWTON-MIN-LS-STALL) %s" % (
+                          "did not end through the stagnation exit `line search failed`" if wr else "is missing from the stall stream"))
+    ctx.cov.setdefault("extra", {})["newton_min_ls_stall_regression"] = {"in_stream": len(wr), "returns_line_search_failed": wok}
     ctx.cov.setdefault("extra", {})["newton_stall"] = {"runs": len(srun), "ended_by_line_search_failed": n_lsf,
                                                        "trajectories_replayed": len(stall),
                                                        "spinning": sum(1 for r in srun if r["outcome"] == "deadline")}
@@ -712,7 +730,9 @@ def replay(ctx, path):
         badk = r["outcome"] in ("deadline", "crash", "rtpanic") or (
             r["outcome"] == "panic" and r["case"]["routine"] not in PANIC_IS_LOUD)
         capbad = (r["case"]["cap"] >= 0 and r["case"]["routine"] in RID and r["iters"] > r["case"]["cap"] + 1)
-        return 1 if ((badk and not known_term(r, fs)) or capbad) else 0
+        ex = rp.get("expect")      # regression cases of fixed findings say how the run has to end
+        exbad = bool(ex) and not (r["outcome"] == ex.get("outcome") and ex.get("msg_contains", "") in r.get("msg", ""))
+        return 1 if ((badk and not known_term(r, fs)) or capbad or exbad) else 0
     print("replay names a broken obligation, not an input: %s" % rp.get("obligation"))
     ok, failures = vlib.proof_stage(ctx, TARGETS, PROPS)
     return 0 if ok else 1
